@@ -38,8 +38,10 @@ TRUSTED = ["SHA-256 / tagged hash of the model is executable Lean validated agai
            "T1/T2 over the raw arithmetic of secp256k1 carry no curve-level hypothesis (C01's `Lawful (opsSub K)`, the "
            "discriminant, primality of p, n and cofactor one `Btc.E2E.secpCofactorOne` are all proved); for another curve "
            "they take `hcof` (cofactor one) as an explicit hypothesis; T3 needs no group assumption (`LiftEven (EC.ops C)` is proved)",
-           "a list in script position that is not a command list is taproot.serialize's to judge (Err.codec): outside the model, not streamed",
-           "taproot.serialize (command list -> tapscript bytes) is outside this property: leaves are compared as bytes",
+           "taproot.serialize is modelled (serializeTap) for commands that are ints, ASCII strs, bytes-like objects or objects that are "
+           "none of these and no list / tuple; a str command with a non-ASCII character (Python's Unicode strip / upper / int) and a "
+           "list / tuple in command position are outside the model, not streamed; int(str)'s digit limit is the interpreter's "
+           "(sys.get_int_max_str_digits() == 4300 is checked before the run)",
            "collision resistance of the tagged hash: soundness is a REDUCTION to an explicit collision / tweak alias"]
 ASSUMPTIONS = ["libsecp256k1's xonly tweak functions are compared with the model, not verified"]
 
@@ -67,8 +69,13 @@ def err_kind(e: BaseException) -> str:
         return "err vtype"
     if c == "type" and "invalid tapscript type" in m:
         return "err stype"
+    if c == "type" and ("invalid script command type" in m or "non-integer script number" in m):
+        return "err ctype"
     if c != "value":
         return "err " + (c if not c.startswith("foreign") else "foreign")
+    if "invalid string command" in m or "invalid OP_SUCCESS number" in m or "OP_SUCCESS must be followed" in m \
+            or "script number out of range" in m or "too many bytes for OP_PUSHDATA" in m:
+        return "err cmd"
     if "nesting levels" in m:
         return "err deep"
     if "invalid script tree node" in m:
@@ -159,6 +166,8 @@ def _script_list(b: bytes):
     return list(_PARSE_CACHE[b])
 
 
+from btclib.script import op_codes_tapscript as _OC  # noqa: E402
+_OP_NAMES = sorted(_OC.OP_CODES)
 OPS = ["OP_1", "OP_2", "OP_16", "OP_DUP", "OP_DROP", "OP_CHECKSIG", "OP_CHECKSIGADD", "OP_EQUAL", "OP_VERIFY",
        "OP_0", "OP_IF", "OP_ENDIF", "OP_NUMEQUAL", "OP_SWAP"]
 
@@ -272,6 +281,109 @@ ATOMS_F = [None, "", b"", False, 0.0, {}, bytearray(), range(0)]
 _GOOD_LEAF = ("O", True, ("T", False, ("I", 0xC0), ("C", b"\x51")))
 
 
+# script commands: ("i", int) | ("s", ascii str) | ("b", bytes) | ("x", k)      token: i.<int> | s.<hex> | b.<hex> | x.<k>
+CMD_OTHER = [None, 1.5, True, False, {"a": 1}, 0.0, frozenset()]
+
+
+def cmd_tok(c) -> str:
+    if c[0] == "i":
+        return f"i.{c[1]}"
+    if c[0] == "s":
+        return f"s.{hx(c[1].encode('ascii'))}"
+    if c[0] == "b":
+        return f"b.{hx(c[1])}"
+    return f"x.{c[1]}"
+
+
+def cmd_obj(c):
+    if c[0] == "i":
+        return c[1]
+    if c[0] == "s":
+        return c[1]
+    if c[0] == "b":         # every bytes-like spelling, chosen by the content so that the token determines the object
+        return (bytes, bytearray, memoryview)[(len(c[1]) + sum(c[1][:2])) % 3](c[1])
+    return CMD_OTHER[c[1] % len(CMD_OTHER)]
+
+
+_WS = [" ", "\t", "\n", "\x0b", "\x0c", "\r", "\x1c", "\x1f", "  "]
+_INTS = [0, 1, -1, 2, 16, 17, 127, 128, 129, 255, 256, -127, -128, -255, 32767, 32768, -32768, 2 ** 31 - 1, 2 ** 31, 2 ** 32,
+         2 ** 63 - 1, -2 ** 63 + 1, -2 ** 63, 2 ** 63, -2 ** 63 - 1, 2 ** 64, 10 ** 30]
+
+
+def rand_cmd(rng, ctx=None):
+    """one script command of any kind, mostly one `taproot.serialize` accepts"""
+    r = rng.random()
+
+    def note(k):
+        if ctx is not None:
+            ctx.count("command kind", k)
+    if r < 0.16:
+        note("int")
+        return ("i", rng.choice(_INTS) if rng.random() < 0.7 else rng.randrange(-2 ** 63, 2 ** 63))
+    if r < 0.36:
+        name = rng.choice(_OP_NAMES)
+        q = rng.random()
+        if q < 0.3:
+            name = "".join(ch.lower() if rng.random() < 0.5 else ch for ch in name)
+            note("str op name, mixed case")
+        elif q < 0.45:
+            name = rng.choice(_WS) + name + rng.choice(_WS)
+            note("str op name, padded")
+        elif q < 0.52:
+            name = rng.choice([name[:-1], name + "X", name.replace("_", " ", 1), name[:3] + " " + name[3:], "OP_", ""])
+            note("str op name, damaged")
+        else:
+            note("str op name")
+        return ("s", name)
+    if r < 0.52:
+        h = common.rand_bytes(rng, rng.choice([0, 1, 2, 20, 32, 33, 75, 76, 77, 255, 256, 300])).hex()
+        q = rng.random()
+        if q < 0.2:
+            h = h.upper()
+        elif q < 0.4:
+            h = "".join(ch.upper() if rng.random() < 0.5 else ch for ch in h)
+        if q > 0.7 and len(h) >= 4:
+            sep = rng.choice([" ", "\t", "\n", "  ", "\r", "\x0b"])
+            h = sep.join(h[i:i + 2] for i in range(0, len(h), 2))
+        if rng.random() < 0.15:
+            h = rng.choice(_WS) + h + rng.choice(_WS)
+        note("str hex")
+        return ("s", h)
+    if r < 0.60:
+        note("str hex, damaged")
+        g = common.rand_bytes(rng, rng.choice([1, 2, 5])).hex()
+        return ("s", rng.choice([g[:-1], g[0] + " " + g[1:], g + "g", "0x" + g, g[:2] + "\x1c" + g[2:], g + "_", "-" + g, g[:1],
+                                 g[:2] + "\x1c", "\x1c" + g, "+" + g]))
+    if r < 0.70:
+        note("str OP_SUCCESSx")
+        n = rng.choice(T.OP_SUCCESS) if rng.random() < 0.6 else rng.choice([0, 79, 81, 97, 186, 255, 256, -80, 99])
+        sp = rng.choice(["OP_SUCCESS{}", "OP_SUCCESS{}", "op_success{}", "Op_Success{}", " OP_SUCCESS{} ", "OP_SUCCESS {}", "OP_SUCCESS+{}",
+                         "OP_SUCCESS0{}", "OP_SUCCESS{}_", "OP_SUCCESS_{}", "OP_SUCCESS{} \x1f", "OP_SUCCESS\t{}", "OP_SUCCESS{}.0",
+                         "OP_SUCCESS", "OP_SUCCESSX", "OP_SUCCESS+ {}", "XOP_SUCCESS{}", "OP_SUCCESS0x{}"])
+        t = sp.format(n)
+        if rng.random() < 0.2 and len(str(n)) == 3:
+            t = sp.format(str(n)[0] + "_" + str(n)[1:])
+        return ("s", t)
+    if r < 0.92:
+        note("bytes")
+        return ("b", common.rand_bytes(rng, rng.choice([0, 1, 1, 2, 20, 32, 33, 64, 74, 75, 76, 77, 254, 255, 256, 257, 520, 521])))
+    note("other object")
+    return ("x", rng.randrange(len(CMD_OTHER)))
+
+
+def rand_cmds(rng, ctx=None):
+    """a command list mixing every kind; an OP_SUCCESSx, when drawn, is mostly followed the way serialize wants"""
+    n = rng.choice([0, 1, 1, 2, 3, 4, 6, 9])
+    cs = [rand_cmd(rng, ctx) for _ in range(n)]
+    for i, c in enumerate(cs):
+        if c[0] == "s" and "success" in c[1].lower() and rng.random() < 0.7:
+            cs = cs[:i + 1] + [("b", common.rand_bytes(rng, rng.choice([0, 1, 5, 80])))]
+            if rng.random() < 0.15:
+                cs.append(rand_cmd(rng, ctx))
+            break
+    return cs
+
+
 def py_tok(a) -> str:
     k = a[0]
     lt = lambda b: "l" if b else "t"  # noqa: E731
@@ -281,6 +393,8 @@ def py_tok(a) -> str:
         return f"A.{'t' if a[1] else 'f'}.{a[2]}"
     if k == "C":
         return f"C.{len(_script_list(a[1]))}.{hx(a[1])}"
+    if k == "S":
+        return ";".join([f"S.{len(a[1])}"] + [cmd_tok(c) for c in a[1]])
     if k == "E":
         return f"E.{lt(a[1])}"
     if k == "M":
@@ -304,6 +418,14 @@ def py_ast(tok: str):
             return ("A", t[1] == "t", int(t[2]))
         if k == "C":
             return ("C", unhx(t[2]))
+        if k == "S":
+            cs = []
+            for _ in range(int(t[1])):
+                c = toks[pos[0]].split(".")
+                pos[0] += 1
+                cs.append({"i": lambda v: ("i", int(v)), "s": lambda v: ("s", unhx(v).decode("ascii")),
+                           "b": lambda v: ("b", unhx(v)), "x": lambda v: ("x", int(v))}[c[0]](c[1]))
+            return ("S", cs)
         if k == "E":
             return ("E", t[1] == "l")
         if k == "M":
@@ -329,6 +451,8 @@ def py_obj(a):
         return pool[a[2] % len(pool)]
     if k == "C":
         return _script_list(a[1])
+    if k == "S":
+        return [cmd_obj(c) for c in a[1]]
     if k == "E":
         return seq(a[1], [])
     if k == "M":
@@ -481,6 +605,8 @@ def _impl(op, a):
             return "err index"
         (v, sc), path = info[i]
         return f"ok {_position_bits(tree, i) or '_'} {v}:{hx(T.serialize(list(sc)))}:{hx(path)}"
+    if op == "ser":
+        return "ok " + hx(T.serialize(py_obj(py_ast(a[0]))))
     if op == "pytree":
         info, root = T.tree_helper(py_obj(py_ast(a[0])))
         return f"ok {hx(root)} " + "|".join(f"{v}:{hx(T.serialize(list(s)))}:{hx(p)}" for (v, s), p in info)
@@ -1017,6 +1143,38 @@ def _o_answers(w):
 
 ORACLES["outpub.answers"] = _guard(_o_answers)
 
+
+def _o_leaf_commits(w):
+    """a leaf whose script is a command list of any kinds: tree_helper answers iff taproot.serialize does (same refusal
+    otherwise); the root is the TapLeaf hash of the SERIALISED octets, the control block input_script_sig builds proves
+    those octets against the output key, and (no OP_SUCCESSx met) taproot.parse reads them back to the same octets"""
+    cs = py_obj(py_ast(w["script"]))
+    v = w["version"]
+    ser = _call(T.serialize, list(cs))
+    th = _call(T.tree_helper, [(v, list(cs))])
+    if ser[0] == "err":
+        return (th == ser), f"serialize {ser[1]}, tree_helper {th[0]} {th[1] if th[0] == 'err' else ''}"
+    if th[0] == "err":
+        return False, f"serialize answers, tree_helper {th[1]}"
+    b = ser[1]
+    info, root = th[1]
+    if root != T.leaf_hash(v & 0xFE, b) or len(info) != 1 or info[0][1] != b"" or info[0][0][0] != v & 0xFE:
+        return False, "root is not the TapLeaf hash of the serialised script"
+    with arm(w["arm"]):
+        q, _ = T.output_pubkey(bytes.fromhex(w["key"]), [(v, list(cs))])
+        scr, control = T.input_script_sig(bytes.fromhex(w["key"]), [(v, list(cs))], 0)
+        if T.serialize(list(scr)) != b or not T.check_output_pubkey(q, b, control):
+            return False, "the control block does not prove the serialised script"
+        if T.check_output_pubkey(q, b + b"\x00", control):
+            return False, "the control block proves a longer script too"
+    pr = _call(T.parse, b)
+    if pr[0] == "ok" and T.serialize(list(pr[1])) != b:
+        return False, "parse / serialize do not read the octets back"
+    return True, f"{len(cs)} commands, {len(b)} octets"
+
+
+ORACLES["leaf.commits_to_serialized"] = _guard(_o_leaf_commits)
+
 NUMS = "0250929b74c1a04954b78b4b6035e97a5e078a5a0f28ec96d547bfee9ace803ac0"
 
 
@@ -1227,6 +1385,43 @@ def run(ctx):
             pys.append(hang(a, dd))
     pys.append(("T", True, _GOOD_LEAF, hang(_GOOD_LEAF, 128)))       # too deep in the RIGHT subtree only
     pys.append(("T", True, ("E", True), hang(_GOOD_LEAF, 128)))       # a bad left node is met first
+    # leaf scripts of EVERY command kind (int, str: op name / OP_SUCCESSx / hex, bytes-like, other objects), valid and malformed:
+    # taproot.serialize alone (`ser`), as the script of a leaf, and in the positions where a tree node / a leaf pair is expected
+    import sys as _sys
+    if _sys.get_int_max_str_digits() != 4300:
+        raise common.HarnessError("int(str) digit limit of this interpreter is not the modelled 4300")
+    fixed_s = [[], [("i", 1)], [("b", b"\x01\x02")], [("i", 0)], [("s", "OP_1")], [("x", 0)], [("x", 2)], [("x", 3)],
+               [("i", 0xC0), ("s", "OP_1")], [("s", "ab"), ("s", "OP_1")], [("i", 1), ("i", 2), ("i", 3)],
+               [("s", "OP_SUCCESS80"), ("b", b"\xff\x4c")], [("s", "OP_SUCCESS80")], [("s", "OP_SUCCESS80"), ("s", "OP_1")],
+               [("s", "OP_SUCCESS80"), ("b", b""), ("b", b"")], [("s", "op_success80"), ("s", "OP_1")], [("s", "op_success80")],
+               [("s", "OP_SUCCESS" + "0" * 4298 + "80"), ("b", b"\x01")], [("s", "OP_SUCCESS" + "0" * 4299 + "80"), ("b", b"\x01")],
+               [("s", "OP_SUCCESS" + "0_" * 2149 + "80"), ("b", b"\x01")], [("s", "OP_SUCCESS" + "0_" * 2150 + "80"), ("b", b"\x01")],
+               [("s", "OP_SUCCESS-80"), ("b", b"")], [("s", "OP_SUCCESS8__0"), ("b", b"")], [("s", "OP_SUCCESS\x1c80\x1d"), ("b", b"")],
+               [("s", "  OP_SUCCESS98\n"), ("b", b"abc")], [("s", "")], [("s", " ")], [("s", "a b")], [("s", "ab cd")], [("s", "ab  cd\t")],
+               [("s", "ab\x1ccd")], [("s", "OP_FALSE"), ("s", "op_true"), ("s", "OP_PUSHDATA1")], [("s", "OP_RESERVED")], [("s", "OP_VER")],
+               [("b", bytes(75))], [("b", bytes(76))], [("b", bytes(255))], [("b", bytes(256))], [("b", bytes(65535))], [("b", bytes(65536))],
+               [("s", "00" * 65536)], [("i", 2 ** 63 - 1), ("i", -2 ** 63), ("i", -2 ** 63 + 1)], [("i", 2 ** 63)], [("i", -2 ** 63 - 1)],
+               [("b", b"\x01"), ("x", 0), ("s", "zz")], [("b", b"\x01"), ("s", "zz"), ("x", 0)]]
+    scripts = fixed_s + [rand_cmds(rng, ctx) for _ in range(ctx.n(700, 12000))]
+    L["ser"] = [f"ser {py_tok(('S', cs))}" for cs in scripts]
+    L["pyscript"] = []
+    kser = hx(spellings(rng, rng.randrange(1, N))[0][1])
+    for j, cs in enumerate(fixed_s + [rand_cmds(rng) for _ in range(ctx.n(150, 2500))]):
+        sa = ("S", cs)
+        ver = rng.choice([0xC0, 0xC0, 0xC1, 0, -1, 0x1C2, 2 ** 70])
+        leaf = ("O", rng.random() < 0.6, ("T", rng.random() < 0.3, ("I", ver), sa))
+        shapes = [leaf, leaf, ("T", True, leaf, _GOOD_LEAF), ("T", False, _GOOD_LEAF, leaf), sa, ("O", True, sa),
+                  ("T", True, sa, _GOOD_LEAF), ("O", True, ("T", True, sa, ("C", b"\x51")))]
+        a = shapes[j % len(shapes)] if j >= len(fixed_s) else leaf
+        L["pyscript"].append(f"pytree {py_tok(a)}")
+        if j % 5 == 0:
+            arm_ = arms[j % 2]
+            L["pyscript"] += [f"outpubpy@{arm_} {kser} {py_tok(a)}", f"isspy@{arm_} {kser} {py_tok(a)} 0", f"outprvpy@{arm_} 7 {py_tok(a)}"]
+        if j % 4 == 0 or j < len(fixed_s):
+            ctx.check("leaf.commits_to_serialized", {"script": py_tok(sa), "version": ver & 0xFF, "key": kser, "arm": arms[j % 2]})
+    for dd in (127, 128, 129):      # a two-command list IS a two-element node: its children are met one level down
+        for a in (("S", [("s", "OP_1"), ("i", 2)]), ("S", [("b", b"\x01")]), ("C", b"\x51\x52"), ("S", [])):
+            L["pyscript"].append(f"pytree {py_tok(hang(a, dd))}")
     L["pytree"] = [f"pytree {py_tok(a)}" for a in pys]
     L["pyentry"] = []
     dk = rng.randrange(1, N)
@@ -1280,6 +1475,8 @@ def run(ctx):
     ctx.stream("p2tr", L["p2tr"] + L["p2tr.deep"], nontrivial=lambda ln, out: True)
     ctx.stream("check.parity", L["check.parity"], nontrivial=lambda ln, out: True)
     ctx.stream("pytree", L["pytree"], nontrivial=lambda ln, out: True)
+    ctx.stream("ser", L["ser"])
+    ctx.stream("pyscript", L["pyscript"], nontrivial=lambda ln, out: True)
     ctx.stream("pyentry", L["pyentry"], nontrivial=lambda ln, out: True)
 
     # every single-bit alteration (small control blocks: all bits; deep ones: head + sample)
